@@ -3,7 +3,7 @@ CANON = True
 
 import ast
 
-from .. import astoblig, compq, pyq, readerq
+from .. import pm, astoblig, compq, pyq, readerq
 from ..pyflow import Reach
 from ..pysrc import dotted, norm, flat
 from .c21 import check_positions
@@ -52,7 +52,7 @@ def check(ctx, src):
               witness="tracebacks show the end line (or the column) as the line number", detail=str(pa))
     gp = cp.func("Asty._get_pos")
     t = flat(gp) if gp else ""
-    ctx.check("attr: getattr(node, hy_attr, getattr(node, attr, None)) for attr, hy_attr in Asty.POS_ATTRS.items()" in t, "POS-ATTRS", f"{CP}|Asty._get_pos", "_get_pos must read the model attribute, falling back to the node attribute of the same name", CP, 0, detail="model attr, else node attr")
+    ctx.check(gp is not None and pm.find(gp, "{attr: getattr(node, hy_attr, getattr(node, attr, None)) for attr, hy_attr in Asty.POS_ATTRS.items()}") is not None, "POS-ATTRS", f"{CP}|Asty._get_pos", "_get_pos must read the model attribute, falling back to the node attribute of the same name", CP, 0, detail="model attr, else node attr")
     ga = cp.func("Asty.__getattr__")
     t = flat(ga) if ga else ""
     ctx.check("lambda x, **kwargs: getattr(ast, name)(**Asty._get_pos(x), **kwargs)" in t, "POS-ATTRS", f"{CP}|Asty.__getattr__", "asty.X(pos, …) must build ast.X with the position of its first argument", CP, 0, detail="ast.X(**_get_pos(x), **kwargs)")
